@@ -4,7 +4,8 @@
    (family, bytes) framing of the packed-bytes-first classes.  The inner value syntax of the other
    families and of the attributes is tied by the correspondence harness only (harness/c15.py). *)
 From Coq Require Import ZArith Bool List.
-From ExaV Require Import gen.Gen_NlriRegistry model.Model_Nlri proofs.Proofs_Nlri.
+From ExaV Require Import gen.Gen_NlriRegistry model.Model_Nlri model.Model_Attr model.Model_NlriX spec.Spec_Nlri
+  proofs.Proofs_Nlri proofs.Proofs_NlriSpec proofs.Proofs_NlriX proofs.Proofs_AttrVal.
 Import ListNotations.
 Open Scope Z_scope.
 
@@ -130,6 +131,151 @@ Example C15_example :
   /\ index_ipvpn ex_vpn = [48;49;56;48; 4;0;0;0;5; 88; 0;0;253;232;0;0;0;1; 10;0;0].
 Proof. exact ex_vpn_ok. Qed.
 
+(* ---- refinement: the modelled encoders write the RFC 4271 / 7911 / 8277 / 4364 encoding (Spec_Nlri,
+        written from the RFCs over integers) of the route the stored bytes stand for *)
+
+Theorem C15_pack_is_rfc : forall w n,
+  wf w n -> canon (n_labels n) ->
+  wfb (pid_bytes (n_pid n)) -> wfb (n_rd n) -> wfb (n_pfx n) ->
+  pack_nlri (sends n) n = rfc_encode (abs n).
+Proof. exact pack_is_rfc. Qed.
+
+Theorem C15_canon_make_labels : forall vs, canon (make_labels vs).
+Proof. exact canon_make_labels. Qed.
+
+Theorem C15_canon_normal : forall ls, canon ls -> norm_labels ls = ls.
+Proof. exact canon_norm. Qed.
+
+(* ---- VPLS (RFC 4761): fields, round trip, the single-NLRI restriction of the decoder, canonical bytes, index *)
+
+Theorem C15_vpls_fields : forall v, wf_vpls v -> vpls_fields (make_vpls v) = v.
+Proof. exact vpls_fields_make. Qed.
+
+Theorem C15_vpls_roundtrip : forall v, wf_vpls v -> unpack_vpls (make_vpls v) = Some (make_vpls v, []).
+Proof. exact vpls_roundtrip. Qed.
+
+Theorem C15_vpls_no_trailing : forall v rest, wf_vpls v -> rest <> [] -> unpack_vpls (make_vpls v ++ rest) = None.
+Proof. exact vpls_no_trailing. Qed.
+
+Theorem C15_vpls_canonical : forall data p rest,
+  unpack_vpls data = Some (p, rest) -> rd16 data = 17 -> p = data /\ rest = [].
+Proof. exact vpls_canonical. Qed.
+
+Theorem C15_vpls_index_injective : forall v1 v2, wf_vpls v1 -> wf_vpls v2 ->
+  vpls_index (make_vpls v1) = vpls_index (make_vpls v2) -> v1 = v2.
+Proof. exact vpls_index_injective. Qed.
+
+(* ---- RTC (RFC 4684) *)
+
+Theorem C15_rtc_roundtrip : forall origin rt rest,
+  0 <= origin < 4294967296 -> wf_rt rt ->
+  unpack_rtc (make_rtc origin (Some rt) ++ rest) = Some (make_rtc origin (Some rt), rest)
+  /\ rtc_origin (make_rtc origin (Some rt)) = origin
+  /\ rtc_rt (make_rtc origin (Some rt)) = Some (reset_flags (hd 0 rt) :: tl rt).
+Proof. exact rtc_roundtrip. Qed.
+
+Theorem C15_rtc_wildcard_roundtrip : forall origin rest,
+  unpack_rtc (make_rtc origin None ++ rest) = Some (make_rtc origin None, rest).
+Proof. exact rtc_wildcard_roundtrip. Qed.
+
+Theorem C15_rtc_canonical : forall data p rest,
+  wfb data -> unpack_rtc data = Some (p, rest) ->
+  (nth 0 data 0 <> 0 -> nth 5 data 0 < 64) -> p ++ rest = data.
+Proof. exact rtc_canonical. Qed.
+
+Theorem C15_rtc_index_injective : forall o1 o2 rt1 rt2,
+  0 <= o1 < 4294967296 -> 0 <= o2 < 4294967296 -> wf_rt rt1 -> wf_rt rt2 ->
+  rtc_index (make_rtc o1 (Some rt1)) = rtc_index (make_rtc o2 (Some rt2)) ->
+  o1 = o2 /\ reset_flags (hd 0 rt1) = reset_flags (hd 0 rt2) /\ tl rt1 = tl rt2.
+Proof. exact make_rtc_injective. Qed.
+
+(* ---- EVPN (RFC 7432 7): the (route type, length, payload) framing *)
+
+Theorem C15_evpn_frame_roundtrip : forall code payload rest,
+  zlen payload < 256 ->
+  unpack_evpn_frame (pack_evpn code payload ++ rest) = Some (pack_evpn code payload, rest).
+Proof. exact evpn_frame_roundtrip. Qed.
+
+Theorem C15_evpn_frame_canonical : forall data p rest,
+  wfb data -> unpack_evpn_frame data = Some (p, rest) ->
+  p ++ rest = data /\ zlen p = 2 + nth 1 data 0 /\ p = pack_evpn (nth 0 data 0) (skipn 2 p).
+Proof. exact evpn_frame_canonical. Qed.
+
+(* ---- attributes: header (flag, code, one / two octet length) and the fixed-layout values, decoded
+        back from what Model_Attr (the C01 model of pack_attribute) writes *)
+
+Theorem C15_attr_header_roundtrip : forall flag code value rest,
+  0 <= flag -> zlen value < 65536 ->
+  dec_tlv (tlv_raw flag code value ++ rest) = Some (flag_sent flag value, code, value, rest).
+Proof. exact tlv_roundtrip. Qed.
+
+Theorem C15_attr_header_canonical : forall d flag code value rest,
+  wfb d -> dec_tlv d = Some (flag, code, value, rest) ->
+  (has_bit flag 16 = true -> 255 < zlen value) ->
+  tlv_raw flag code value ++ rest = d.
+Proof. exact tlv_canonical. Qed.
+
+Theorem C15_attr_nums_canonical : forall w fuel d l,
+  (0 < w)%nat -> wfb d -> dec_nums fuel w d = Some l -> flat_map (be w) l = d /\ Forall (in_range w) l.
+Proof. exact dec_nums_canonical. Qed.
+
+Theorem C15_attr_roundtrip : forall flag code w l rest,
+  0 <= flag -> (0 < w)%nat -> l <> [] -> Forall (in_range w) l -> Z.of_nat (w * length l) < 65536 ->
+  let value := flat_map (be w) l in
+  dec_tlv (attr_tlv flag code value ++ rest) = Some (flag_sent flag value, code, value, rest)
+  /\ dec_nums (length value) w value = Some l.
+Proof. exact nums_attr_roundtrip. Qed.
+
+Theorem C15_attr_roundtrip_community : forall s vs rest,
+  vs <> [] -> Forall (in_range 4) vs -> Z.of_nat (4 * length (csort vs)) < 65536 -> csort vs <> [] ->
+  exists value, dec_tlv (pack_item s (ICommunity vs) ++ rest) = Some (flag_sent 192 value, 8, value, rest)
+                /\ dec_community value = Some (csort vs).
+Proof. exact community_roundtrip. Qed.
+
+Theorem C15_attr_roundtrip_cluster_list : forall s ids rest,
+  ids <> [] -> Forall (in_range 4) ids -> Z.of_nat (4 * length ids) < 65536 ->
+  exists value, dec_tlv (pack_item s (ICluster ids) ++ rest) = Some (flag_sent 128 value, 10, value, rest)
+                /\ dec_cluster value = Some ids.
+Proof. exact cluster_roundtrip. Qed.
+
+Theorem C15_attr_roundtrip_extended : forall s vs rest,
+  Forall (in_range 8) vs -> Z.of_nat (8 * length (csort vs)) < 65536 -> csort vs <> [] ->
+  exists value, dec_tlv (pack_item s (IExtended vs) ++ rest) = Some (flag_sent 192 value, 16, value, rest)
+                /\ dec_extended value = Some (csort vs).
+Proof. exact extended_roundtrip. Qed.
+
+Theorem C15_attr_roundtrip_large : forall s vs rest,
+  Forall (in_range 12) vs -> Z.of_nat (12 * length (csort_nodup vs)) < 65536 -> csort_nodup vs <> [] ->
+  exists value, dec_tlv (pack_item s (ILarge vs) ++ rest) = Some (flag_sent 192 value, 32, value, rest)
+                /\ dec_large value = Some (csort_nodup vs).
+Proof. exact large_roundtrip. Qed.
+
+Theorem C15_attr_roundtrip_originator : forall s ip rest,
+  length ip = 4%nat ->
+  dec_tlv (pack_item s (IOriginator ip) ++ rest) = Some (128, 9, ip, rest) /\ dec_originator ip = Some ip.
+Proof. exact originator_roundtrip. Qed.
+
+Theorem C15_attr_roundtrip_aggregator : forall asn ip rest,
+  length ip = 4%nat -> 0 <= asn < 4294967296 ->
+  (dec_tlv (pack_aggregator true asn ip ++ rest) = Some (192, 7, be32 asn ++ ip, rest)
+   /\ dec_aggregator true (be32 asn ++ ip) = Some (asn, ip))
+  /\ (asn <= 65535 ->
+      dec_tlv (pack_aggregator false asn ip ++ rest) = Some (192, 7, be16 asn ++ ip, rest)
+      /\ dec_aggregator false (be16 asn ++ ip) = Some (asn, ip))
+  /\ (65535 < asn ->
+      dec_tlv (pack_aggregator false asn ip ++ rest)
+        = Some (192, 7, be16 AS_TRANS ++ ip, attr_tlv 192 18 (be32 asn ++ ip) ++ rest)
+      /\ dec_tlv (attr_tlv 192 18 (be32 asn ++ ip) ++ rest) = Some (192, 18, be32 asn ++ ip, rest)
+      /\ dec_aggregator false (be16 AS_TRANS ++ ip) = Some (AS_TRANS, ip)
+      /\ dec_aggregator true (be32 asn ++ ip) = Some (asn, ip)).
+Proof. exact aggregator_roundtrip. Qed.
+
+(* non-vacuity of the new statements: a VPLS route and a community list of 64 entries (256 octets) *)
+Example C15_example_vpls :
+  wf_vpls (mkV [0;0;253;232;0;0;0;1] 5 1 8 10702)
+  /\ make_vpls (mkV [0;0;253;232;0;0;0;1] 5 1 8 10702) = [0;17;0;0;253;232;0;0;0;1;0;5;0;1;0;8;2;156;225].
+Proof. exact ex_vpls_ok. Qed.
+
 Print Assumptions C15_registry.
 Print Assumptions C15_family_index_matches_code.
 Print Assumptions C15_inet_roundtrip.
@@ -147,3 +293,27 @@ Print Assumptions C15_eq_implies_index_hash_equal.
 Print Assumptions C15_index_injective_refuted.
 Print Assumptions C15_eq_hash_refuted.
 Print Assumptions C15_opaque_index_injective.
+Print Assumptions C15_pack_is_rfc.
+Print Assumptions C15_canon_make_labels.
+Print Assumptions C15_canon_normal.
+Print Assumptions C15_vpls_fields.
+Print Assumptions C15_vpls_roundtrip.
+Print Assumptions C15_vpls_no_trailing.
+Print Assumptions C15_vpls_canonical.
+Print Assumptions C15_vpls_index_injective.
+Print Assumptions C15_rtc_roundtrip.
+Print Assumptions C15_rtc_wildcard_roundtrip.
+Print Assumptions C15_rtc_canonical.
+Print Assumptions C15_rtc_index_injective.
+Print Assumptions C15_evpn_frame_roundtrip.
+Print Assumptions C15_evpn_frame_canonical.
+Print Assumptions C15_attr_header_roundtrip.
+Print Assumptions C15_attr_header_canonical.
+Print Assumptions C15_attr_nums_canonical.
+Print Assumptions C15_attr_roundtrip.
+Print Assumptions C15_attr_roundtrip_community.
+Print Assumptions C15_attr_roundtrip_cluster_list.
+Print Assumptions C15_attr_roundtrip_extended.
+Print Assumptions C15_attr_roundtrip_large.
+Print Assumptions C15_attr_roundtrip_originator.
+Print Assumptions C15_attr_roundtrip_aggregator.
